@@ -17,7 +17,7 @@ func init() {
 	register(&propCheck{
 		ID:    "C02",
 		Run:   runC02,
-		Level: "Static analysis (abstract interpretation of every constructor and builder method; symbolic size terms of size functions and encoders; specification code tables). Decides: code/<ctor> — each action, instruction, Nicira action, vendor-message, hello-element and match constructor leaves the type / subtype / experimenter codes of spec/codes.json (OpenFlow 1.3.5 §7.2, OVS nicira-ext.h, ONF bundle extension) on every path, and every constructor of such a kind has a table row; declen/ctor/<ctor> — the stored length field a constructor leaves equals the size the element will occupy (the kind's size term evaluated on the constructed value; for a match: the unpadded 4 + Σ field sizes); declen/builder/<method> — every builder method that changes what an element contains changes its stored length field by exactly the same term (sequences of add/prepend/set calls are covered by this preserved invariant, not enumerated), with setters of optional parts required to be idempotent in the length; size/<kind> — for every nested element kind the size function, the bytes produced and the extent written agree as terms (induction over kinds), which together with declen makes each declared length the number of bytes the element occupies; align8/<kind> — the size term of every action, instruction, match and bucket kind is a sum of multiples of 8, round8(·) and sizes of kinds that satisfy the rule. With these, a receiver that walks a message by declared lengths visits every element and ends at the end of the message. Not decided: lengths above 65535/255 (outside the statement); that padding bytes are zero is the buffer-initialisation argument of C06 (pre-sized zeroed buffer, tail never written).",
+		Level: "Static analysis (abstract interpretation of every constructor and builder method; symbolic size terms of size functions and encoders; specification code tables). Decides: code/<ctor> — each action, instruction, Nicira action, vendor-message, hello-element and match constructor leaves the type / subtype / experimenter codes of spec/codes.json (OpenFlow 1.3.5 §7.2, OVS nicira-ext.h, ONF bundle extension) on every path, and every constructor of such a kind has a table row; declen/ctor/<ctor> — the stored length field a constructor leaves equals the size the element will occupy (the kind's size term evaluated on the constructed value; for a match: the unpadded 4 + Σ field sizes); declen/builder/<method> — every builder method that changes what an element contains changes its stored length field by exactly the same term (sequences of add/prepend/set calls are covered by this preserved invariant, not enumerated), with setters of optional parts required to be idempotent in the length; size/<kind> — for every nested element kind the size function, the bytes produced and the extent written agree as terms (induction over kinds), which together with declen makes each declared length the number of bytes the element occupies; align8/<kind> — the size term of every action, instruction, match and bucket kind is a sum of multiples of 8, round8(·) and sizes of kinds that satisfy the rule. With these, a receiver that walks a message by declared lengths visits every element and ends at the end of the message. Not decided: lengths above 65535/255 (outside the statement); that padding bytes are zero is the buffer-initialisation argument of C06 (pre-sized zeroed buffer, tail never written). Also decided: errfail/<function>/<branch> — in the codecs the branch taken for a non-nil error returns a non-nil error (no log-and-continue that leaves an element out while the declared lengths still include it).",
 		Assumptions: []string{
 			"spec/codes.json transcribes the type codes of OpenFlow 1.3.5, OVS nicira-ext.h and the ONF bundle extension",
 			"elements are built through the constructors and builder methods (exported length fields are not overwritten by the caller)",
